@@ -4857,6 +4857,10 @@ class FlowIRConcrete(object):
         components = flowir_0.get(FlowIR.FieldComponents, None)
         if components:
             def pipeline(component):
+                # VV: components must not share (parts of) their definitions, e.g. via YAML anchors: an update of one
+                #     component would change the other behind the cache
+                component = deep_copy(component)
+
                 if '$import' in component:
                     return component
 
